@@ -203,6 +203,58 @@ def main():
         leak_summary = gen_leak.summary(gen_leak.generate(REPO))
     except gen_leak.Missing as e:
         raise Missing(str(e))
+    # ---- C13: the step list of keyring::get_or_create_db_key ------------------------------------
+    # codes: 0 = read (get_db_key), 1 = lock (KEY_GENERATION_LOCK … .lock()), 2 = generate
+    # (EncryptionConfig::generate), 3 = store (set_secret); the guard must stay alive to the end of
+    # the function (bound to a named `_guard`, never `let _ =`, never dropped early)
+    kr_src = strip_comments(non_test(read("crates/mdk-sqlite-storage/src/keyring.rs")))
+    goc = fn_body(kr_src, "get_or_create_db_key", "fn:get_or_create_db_key")
+    marks = []
+    for m in re.finditer(r"\bget_db_key\s*\(|KEY_GENERATION_LOCK\b|\.lock\s*\(\s*\)|EncryptionConfig\s*::\s*generate\s*\(|\.set_secret\s*\(|\.set_password\s*\(", goc):
+        tok = m.group(0)
+        code = 0 if "get_db_key" in tok else 1 if ("lock" in tok or "KEY_GENERATION_LOCK" in tok) else 2 if "generate" in tok else 3
+        if code == 1 and marks and marks[-1] == 1:
+            continue                        # `KEY_GENERATION_LOCK.get_or_init(..)` and `.lock()` are one step
+        marks.append(code)
+    if not marks or 1 not in marks or 3 not in marks:
+        raise Missing("keyring:get_or_create_db_key:steps")
+    guard = re.search(r"let\s+(_[A-Za-z0-9_]+|[a-z][A-Za-z0-9_]*)\s*=\s*lock\b[^;]*\.lock\s*\(\s*\)", goc) or \
+        re.search(r"let\s+(_[A-Za-z0-9_]+|[a-z][A-Za-z0-9_]*)\s*=[^;]*\.lock\s*\(\s*\)", goc)
+    if not guard:
+        raise Missing("keyring:get_or_create_db_key:guard-binding")
+    gname = guard.group(1)
+    held = gname != "_" and not re.search(r"\bdrop\s*\(\s*" + re.escape(gname) + r"\s*\)", goc)
+    facts["keyringShape"] = ("List Nat", "[" + ", ".join(map(str, marks)) + "]",
+                             "keyring.rs get_or_create_db_key: call sequence read(0) → lock(1) → read(0) → generate(2) → store(3)")
+    boolean("keyringGuardHeldToReturn", held, "keyring.rs get_or_create_db_key: the MutexGuard is bound to a named variable and not dropped before the function returns")
+    gdk = fn_body(kr_src, "get_db_key", "fn:get_db_key")
+    boolean("keyringReadTakesNoLock", "KEY_GENERATION_LOCK" not in gdk and ".lock(" not in gdk, "keyring.rs get_db_key takes no lock")
+    ddk = fn_body(kr_src, "delete_db_key", "fn:delete_db_key")
+    boolean("keyringDeleteTakesNoLock", "KEY_GENERATION_LOCK" not in ddk and ".lock(" not in ddk, "keyring.rs delete_db_key takes no lock")
+    # lib.rs `new`: the existing-file branch consults get_db_key (never get_or_create_db_key)
+    new_fn = fn_body(sql_lib, "new", "fn:MdkSqliteStorage::new")
+    m_exist = re.search(r"FileCreationOutcome\s*::\s*AlreadyExisted\s*=>", new_fn)
+    m_created = re.search(r"FileCreationOutcome\s*::\s*Created", new_fn)
+    if not m_exist or not m_created:
+        raise Missing("lib:new:branches")
+    exist_branch = new_fn[m_exist.end():]
+    boolean("newExistingBranchNeverCreates", "get_or_create_db_key" not in exist_branch and "get_db_key" in exist_branch and m_created.start() < m_exist.start(),
+            "lib.rs MdkSqliteStorage::new: the AlreadyExisted arm calls keyring::get_db_key only")
+    boolean("newPrecreatesBeforeKeyDecision", 0 <= new_fn.find("precreate_secure_database_file") < new_fn.find("get_or_create_db_key"),
+            "lib.rs MdkSqliteStorage::new: the file is created atomically before any key decision")
+    enc_src = strip_comments(non_test(read("crates/mdk-sqlite-storage/src/encryption.rs")))
+    ae = fn_body(enc_src, "apply_encryption", "fn:apply_encryption")
+    order = [ae.find("PRAGMA key"), ae.find("cipher_compatibility"), ae.find("temp_store = MEMORY"), ae.find("validate_encryption_key")]
+    if min(order) < 0:
+        raise Missing("encryption:apply_encryption:pragmas")
+    boolean("applyEncryptionOrder", order == sorted(order), "encryption.rs apply_encryption: PRAGMA key, cipher_compatibility, temp_store = MEMORY, validation read — in this order")
+    perm_src = strip_comments(non_test(read("crates/mdk-sqlite-storage/src/permissions.rs")))
+    modes = sorted(set(int(x, 8) for x in re.findall(r"from_mode\s*\(\s*0o([0-7]+)\s*\)", perm_src)))
+    if not modes:
+        raise Missing("permissions:modes")
+    facts["permissionModes"] = ("List Nat", "[" + ", ".join(map(str, modes)) + "]", "permissions.rs from_mode(0o…) constants (decimal)")
+    pre = fn_body(perm_src, "precreate_secure_database_file", "fn:precreate_secure_database_file")
+    boolean("precreateIsExclusive", bool(re.search(r"create_new\s*\(\s*true\s*\)", pre)), "permissions.rs precreate_secure_database_file uses create_new(true) (O_CREAT|O_EXCL)")
 
     # ---- emit -------------------------------------------------------------------------------
     lines = ["/- GENERATED by tools/gen_model.py from the current /repo source — do not edit. -/",
